@@ -80,6 +80,24 @@ class C10(core.Prop):
             i, j = cuts[ci]
             dup_atoms.add(j if end == 1 else i)
         cl.append(('merged_atoms_belong_to_both_nodes', len(multi) == len(dup_atoms)))
+        # exact membership: every atom of the spec molecule belongs to the coarse nodes of all blocks that hold it or a copy of it
+        r = pl.render_case(shape) if False else None
+        blocks = [list(b) for b in shape['blocks']]
+        where = {a: bi for bi, b in enumerate(blocks) for a in b}
+        owners = {a: {where[a]} for a in range(len(mol.atoms))}
+        for ci, end in shape['shared']:
+            i, j = cuts[ci]
+            keep, dup = (i, j) if end == 1 else (j, i)
+            owners[dup].add(where[keep])
+        cnt = {}
+        for ci2, (i, j) in enumerate(cuts):
+            key = tuple(sorted((where[i], where[j])))
+            cnt[key] = cnt.get(key, 0) + 1
+        _p, border = pl.base_graph_text(len(blocks), cnt, root=shape['opts'].get('root', 0) % len(blocks), rev=bool(shape['opts'].get('rev', 0)))
+        coarse_of = {b: k for k, b in enumerate(border)}
+        expected = sorted(sorted(coarse_of[b] for b in own) for own in owners.values())
+        observed = sorted(sorted(set(nodes[n].get('fragid', []))) for n in g.nodes)
+        cl.append(('every_atom_belongs_to_exactly_the_coarse_nodes_that_hold_it', expected == observed))
         members = obs[1]['meta']['nodes']
         cl.append(('membership_consistent', all(
             sorted(k for k, d in members.items() if n in d.get('_members', [])) == sorted(set(nodes[n].get('fragid', []))) for n in nodes)))
